@@ -1049,18 +1049,34 @@ impl<'a> Model<'a> {
                 }
             },
             RecNested => {
-                // via_parser(nested_delimiters('(', ')', [('[', ']')], fallback)): one balanced region
-                match self.balanced(p, st) {
-                    Some((end, st)) => {
+                // via_parser(nested_delimiters('(', ')', [('[', ']')], fallback)): one balanced region.
+                // The region is decided by an independent bracket matcher; the failure events the strategy
+                // leaves behind are obtained by evaluating its documented definition as a grammar.
+                let want = self.balanced(p, st);
+                let got = {
+                    let g: &'static G = nested_g();
+                    let save_wrap = self.wrap;
+                    self.wrap = false;
+                    let r = self.ev(g, p, st, cx);
+                    self.wrap = save_wrap;
+                    r
+                };
+                if self.over {
+                    return R::Fail;
+                }
+                match (want, got) {
+                    (Some((end, st)), R::Ok { end: e2, .. }) => {
+                        assert_eq!(end, e2, "model: bracket matcher and desugared nested_delimiters disagree");
                         self.stats.recoveries += 1;
                         self.recovered += 1;
                         R::Ok { v: Val::Fb(g.id), end, st, em: vec![rec_emit(&estar, end)] }
                     }
-                    None => {
+                    (None, R::Fail) => {
                         self.pend = Some(estar);
                         self.stats.failed_recoveries += 1;
                         R::Fail
                     }
+                    (w, g) => panic!("model: bracket matcher {:?} and desugared nested_delimiters {:?} disagree", w.map(|x| x.0), matches!(g, R::Ok { .. })),
                 }
             }
             RecSkipUntil => {
@@ -1168,4 +1184,21 @@ impl<'a> Model<'a> {
         let end = region(self.w, p, '(', ')')?;
         Some((end, st.feed_all(&self.w[p..end])))
     }
+}
+
+/// `nested_delimiters('(', ')', [('[', ']')], _)` written out as a grammar (its documented definition):
+/// `block = ( block.delimited_by('(', ')') | block.delimited_by('[', ']') | any().and_is(none_of("()[]")).ignored() ).repeated()`,
+/// the whole being `block.delimited_by('(', ')')`.
+pub fn nested_g() -> &'static G {
+    static CELL: std::sync::OnceLock<G> = std::sync::OnceLock::new();
+    CELL.get_or_init(|| {
+        let r = || G::leaf(Op::Ref).with(|p| p.n = 250);
+        let d = |o: char, c: char| G::new(Op::Delim, vec![r(), G::just(o), G::just(c)]);
+        let other = G::un(Op::Ignored, G::bin(Op::AndIs, G::leaf(Op::Any), G::set(Op::NoneOf, "()[]")));
+        let item = G::bin(Op::Or, G::bin(Op::Or, d('(', ')'), d('[', ']')), other);
+        let block = G::un(Op::Rec, G::rep(item, 0, None, Flav::Unit)).with(|p| p.n = 250);
+        let mut g = G::new(Op::Delim, vec![block, G::just('('), G::just(')')]);
+        g.renumber(1_000_000);
+        g
+    })
 }
